@@ -548,6 +548,57 @@ pub fn cases(tier: Tier) -> Result<Vec<Case>, String> {
     Ok(v)
 }
 
+/// The crash cases seen through one kind of observer, for the checks of the properties that
+/// observer belongs to (C03: direct receives, C06: receiver set, C07: router): a 3-packet message
+/// without and with attachments, every crash index, with and without a surviving sender.
+pub fn cases_for(watches: &[Watch]) -> Result<Vec<Case>, String> {
+    let mut v = Vec::new();
+    for attach in [false, true] {
+        let n = measure(3, attach)?;
+        for k in 0..=n {
+            for survivor in [false, true] {
+                for w in watches {
+                    v.push(Case { packets: 3, attach, preceding: false, crash_k: k, n_calls: n, survivor, watch: *w });
+                }
+            }
+        }
+    }
+    Ok(v)
+}
+
+/// run `cases_for` inside another property's report
+pub fn run_for(rep: &mut Report, watches: &[Watch], what: &str) -> u64 {
+    if cfg!(feature = "inproc") {
+        return 0;
+    }
+    let cs = match cases_for(watches) {
+        Ok(c) => c,
+        Err(e) => {
+            rep.machinery(e);
+            return 0;
+        },
+    };
+    let mut n = 0u64;
+    let mut fails = Vec::new();
+    let mut mach = Vec::new();
+    sweep(&cs, 60.0, &cfg_of, &body, &mut |_, c, out| {
+        n += 1;
+        match super::describe(out) {
+            Ok(_) => {},
+            Err(e) if e.contains("MACHINERY") => mach.push(format!("{} :: {:?}", e, c)),
+            Err(e) => fails.push((c.clone(), e)),
+        }
+    });
+    for m in mach {
+        rep.machinery(m);
+    }
+    for (c, e) in fails {
+        rep.fail(&format!("{} :: {} :: {:?}", e, what, c), json!({"engine": "crash-case", "case": c}));
+    }
+    rep.set("sender_crash_cases", json!(n));
+    n
+}
+
 pub fn run(tier: Tier, _part: bool) -> i32 {
     let mut rep = Report::new("C12", tier, "fault_enumeration");
     // cheap check: both tiers run the thorough case list
